@@ -1,7 +1,9 @@
 (* C03 - formatting is canonical: a deterministic fixpoint.
    Only property statements, witnesses and Print Assumptions. *)
 From Coq Require Import List ZArith NArith Bool String.
-From GrolModel Require Import Ast Lexer Parser Printer AstWf Frontend.
+From GrolGen Require Import Gen_Consts.
+From GrolModel Require Import Ast Lexer Parser Printer AstWf Frontend TokPrint.
+From GrolProofs Require Import Roundtrip_expr.
 Import ListNotations.
 
 Definition no_numbers : numconv := mkConv (fun _ => None) (fun _ => None).
@@ -45,5 +47,19 @@ b}"; "// only
 b"; "f = (a,b) => a+b; f(c)"; "for i=a:b {x++} // t"]%string = true.
 Proof. vm_compute. reflexivity. Qed.
 
+(* POSITIVE part, proved without bound for the expression fragment of coq/model/TokPrint.v (see C02):
+   re-parsing the tokens of formatted text and formatting again emits the same tokens - formatted text
+   is a fixpoint of the formatter at token level, in both modes (they differ only in white space).  The
+   byte-level step is checked per run (C02's TL cases and this check's FMT2 cases). *)
+Theorem C03_fragment_fixpoint : forall conv e pts,
+  wf_ex conv e = true -> map pk pts = body e ->
+  exists f0, forall fuel, (f0 <= fuel)%nat ->
+    match parse_program conv fuel token_EOF pts with
+    | POk r => frag_tokens conv (pr_tree r) = Some (body e)
+    | _ => False
+    end.
+Proof. exact fragment_format_fixpoint. Qed.
+
+Print Assumptions C03_fragment_fixpoint.
 Print Assumptions C03_refuted.
 Print Assumptions C03_format_is_a_function.
